@@ -551,11 +551,20 @@ func (w *world) submit(pi int, isPin bool, ci int) {
 	rec := &opRec{Pin: isPin, Cid: ci, Nonce: pin.Name, Peer: pi, At: time.Now(), AfterFault: w.faulted[pi]}
 	w.run.Op()
 	var err error
-	if isPin {
-		err = w.reps[pi].cons.LogPin(w.ctx, pin)
-	} else {
-		err = w.reps[pi].cons.LogUnpin(w.ctx, pin)
+	// Every second call comes with a request context that ends as soon as the
+	// call has returned, the way an API request's does: an operation that was
+	// accepted must take effect all the same (the batch worker runs later).
+	ctx, cancel := w.ctx, context.CancelFunc(func() {})
+	if w.nonce%2 == 0 {
+		ctx, cancel = context.WithCancel(w.ctx)
+		w.run.Probe("request_context_ended_after_return")
 	}
+	if isPin {
+		err = w.reps[pi].cons.LogPin(ctx, pin)
+	} else {
+		err = w.reps[pi].cons.LogUnpin(ctx, pin)
+	}
+	cancel()
 	rec.Accepted = err == nil
 	if err != nil && errors.Is(err, crdt.ErrMaxQueueSizeReached) {
 		rec.QueueErr = true
